@@ -37,6 +37,10 @@ func (c04) Plan(tier string) []core.Segment {
 		{Gen: "spec", Count: gen.CorpusSize(), Exhaustive: true, Desc: "spec 0.30 examples + repo fuzz seeds"},
 		{Gen: "specprefix", Count: gen.PrefixCount(), Exhaustive: true, Desc: "every prefix of every corpus document (end of input inside every construct)"},
 		{Gen: "lines", Profile: "default", Count: scale(tier, 400_000, 16_000_000)},
+		{Gen: "limits", Profile: "default", Count: scale(tier, 12_000, 300_000), Desc: "documents on numeric thresholds: 999-character labels, 9-digit list numbers, reference digit counts, scheme and domain lengths, line endings on the 8 KiB read window, indentation columns, long runs, deep nesting"},
+		{Gen: "defsplit", Profile: "default", Count: scale(tier, 150_000, 6_000_000), Desc: "definition-like paragraphs cut into lines at every place, inside containers with space/tab/partly consumed tab prefixes and hostile bytes right after the prefix"},
+		{Gen: "modeldoc", Profile: "full", Count: scale(tier, 40_000, 2_000_000), Desc: "Markdown of model documents: nested containers, structural tabs, laziness, multi-line inline constructs"},
+		{Gen: "modeldoc", Profile: "deep", Count: scale(tier, 4000, 200000), Desc: "Markdown of model documents: nested containers, structural tabs, laziness, multi-line inline constructs", Batch: 2000},
 		{Gen: "lines", Profile: "hostile", Count: scale(tier, 150_000, 4_000_000)},
 		{Gen: "soup", Profile: "default", Count: scale(tier, 300_000, 12_000_000)},
 		{Gen: "soup", Profile: "inline", Count: scale(tier, 150_000, 6_000_000)},
@@ -54,6 +58,7 @@ func (c04) Plan(tier string) []core.Segment {
 		core.Segment{Gen: "small", Profile: c04small(tier), Count: gen.Size("small", c04small(tier)), Exhaustive: true, Desc: "all strings <= 4 (quick) / 5 (thorough) symbols over {backtick, ~, backslash, SP, a, LF, [, ], (, ), <, >, double quote, &, -, TAB}: unterminated constructs at end of input"},
 		core.Segment{Gen: "bigdoc", Count: scale(tier, 600, 20000), Desc: "8-40 KiB documents of many small blocks", Batch: 50},
 		core.Segment{Gen: "prose", Count: scale(tier, 12, 120), Desc: "prose-like documents 8 KiB .. 2 MiB", Batch: 1},
+		core.Segment{Gen: "hugeblock", Count: gen.Size("hugeblock", ""), Exhaustive: true, Desc: "single root blocks around and above the streaming block-size limit (1 MiB buffer, NUL counted three times): totality only", Batch: 1},
 	)
 	if tier == "thorough" {
 		segs = append(segs,
